@@ -58,3 +58,18 @@ def series(alphabet, n):
 
 def exc_name(e):
     return type(e).__name__
+
+
+def structured_series(n, max_changes=2, levels=(0.0, 3.0), texture=0.25):
+    """All piecewise-constant series of length n with at most `max_changes` change positions whose segments cycle
+    through `levels`, plus a small deterministic texture (so that no segment is exactly constant).  Used for the
+    'medium length' families: exhaustive over the change positions, not over all values."""
+    tex = [texture * (((t * 7 + 3) % 5) - 2) / 2.0 for t in range(n)]
+    for k in range(0, max_changes + 1):
+        for cps in itertools.combinations(range(1, n), k):
+            for start in range(len(levels)):
+                b = (0,) + cps + (n,)
+                x = []
+                for i in range(len(b) - 1):
+                    x += [levels[(start + i) % len(levels)]] * (b[i + 1] - b[i])
+                yield cps, tuple(round(v + e, 6) for v, e in zip(x, tex))
